@@ -33,6 +33,28 @@ class Broken(Exception):
     """The check itself cannot run (exit 2)."""
 
 
+class Crashed(Exception):
+    """The code under test crashed inside a harness (signal / sanitizer abort): a verdict (exit 1), not a broken check.
+    The harnesses are exercised on the unchanged tree in every run, where they do not crash."""
+
+    def __init__(self, site, text, replay=None):
+        Exception.__init__(self, text)
+        self.site, self.text, self.replay = site, text, replay
+
+
+CRASH_RCS = {-11: "SIGSEGV", -6: "SIGABRT", -7: "SIGBUS", -8: "SIGFPE", -4: "SIGILL", 139: "SIGSEGV", 134: "SIGABRT", 135: "SIGBUS", 136: "SIGFPE"}
+
+
+def crash_or_broken(rc, out, site, what, replay=None):
+    """A harness run ended abnormally: raise Crashed if the process died of a crash signal or a sanitizer report, else Broken."""
+    sig = CRASH_RCS.get(rc)
+    if sig is None and ("AddressSanitizer" in (out or "") or "stack smashing" in (out or "")):
+        sig = "sanitizer"
+    if sig:
+        raise Crashed(site, "the code under test crashed (%s) in %s: %s" % (sig, what, (out or "")[-600:].replace("\n", " | ")), replay)
+    raise Broken("%s failed (rc=%s): %s" % (what, rc, (out or "")[-1500:]))
+
+
 def log(*a):
     print(*a, flush=True)
 
@@ -327,8 +349,12 @@ def match_known(prop, signature, known=None):
 # ----------------------------------------------------------------------------------------------
 # verdicts + evidence
 
+CURRENT = [None]   # the Check of this process (the `check` wrapper reports its violations even if a later stage cannot run)
+
+
 class Check:
     def __init__(self, prop, tier, level):
+        CURRENT[0] = self
         self.prop = prop
         self.tier = tier
         self.level = level
